@@ -145,9 +145,11 @@ class Dispatcher(InstructionGenerator):
 
         initial_instructions: Tuple[DispatchTripInstruction, ...] = tuple()
 
+        # fleet_ids is a set: iterate it in a fixed order, since a vehicle in several fleets can be
+        # matched once per fleet and the last instruction generated for a vehicle is the one applied
         all_instructions = ft.reduce(
             _solve_assignment,
-            fleet_ids,
+            sorted(fleet_ids, key=lambda f: (f is not None, f or "")),
             initial_instructions,
         )
 
